@@ -5,7 +5,8 @@
    C04_partial: the completeness sentence (with unlimited liquidity and ample funds orders are filled by the next /
    first reaching bar) is checked by the monitor on dedicated histories, not proved. *)
 From Coq Require Import ZArith QArith List.
-From Basana Require Import Num.DecQ Num.DecQProofs Exchange.Model Exchange.OrderProofs.
+From Basana Require Import Num.DecQ Num.DecQProofs Exchange.Model Exchange.OrderProofs
+     Exchange.Structure Exchange.FeeHistory Exchange.LimitHistory.
 Import ListNotations.
 Open Scope Q_scope.
 
@@ -83,3 +84,37 @@ Example C04_d5_witness :
   | _ => False
   end.
 Proof. vm_compute. split; reflexivity. Qed.
+
+(* whole history: every fill ever recorded on a limit or stop-limit order, in every state reachable through any
+   operation sequence (bars well formed with positive prices), was made at an effective price no worse than the limit,
+   up to half a unit of the quote precision *)
+Theorem C04_every_recorded_fill_respects_the_limit : forall c, impact_cfg_ok c ->
+  forall initial ops i o lp bp qp,
+  cfg_ok c -> ops_ok ops -> bars_ok ops ->
+  nth_error (s_orders (run c (init_st initial) ops)) i = Some o ->
+  limit_of (o_kind o) = Some lp -> get_pair_info c (o_pair o) = Ok (bp, qp) ->
+  Forall (fun f => match o_op o with
+                   | Buy => - f_quote f <= lp * f_base f + half_unit qp
+                   | Sell => lp * - f_base f - half_unit qp <= f_quote f
+                   end) (o_fills o).
+Proof. exact fills_within_limit_reachable. Qed.
+Print Assumptions C04_every_recorded_fill_respects_the_limit.
+
+Example C04_history_premises_met :
+  let c := mkCfg [(1%positive, 2%nat); (2%positive, 2%nat)] [] None NoFee (VolShare 25 10) NoLoans in
+  let p := (1%positive, 2%positive) in
+  let ops := [OBar p 60%Z (mkBar 100 100 100 100 10); OCreate (KLimit (10001#100)) Buy p 5 false false;
+              OCreate (KStopLimit 99 (985#10)) Sell p 2 false false;
+              OBar p 120%Z (mkBar 100 101 98 100 (37#3)); OBar p 180%Z (mkBar 100 101 99 100 100)] in
+  let s := run c (init_st [(1%positive, 10); (2%positive, 1000)]) ops in
+  impact_cfg_ok c /\ cfg_ok c /\ ops_ok ops /\ bars_ok ops /\
+  map (fun o => length (o_fills o)) (s_orders s) = [2%nat; 1%nat].
+Proof.
+  cbv zeta. split; [unfold impact_cfg_ok; cbn; discriminate|]. split; [unfold cfg_ok; cbn; discriminate|].
+  split; [repeat constructor; cbn; discriminate|].
+  split.
+  - intros p w b Hin. cbn [In] in Hin.
+    repeat (destruct Hin as [Hin|Hin]; [try discriminate Hin; inversion Hin; subst; unfold bar_ok; cbn; repeat split; discriminate|]).
+    contradiction.
+  - vm_compute. reflexivity.
+Qed.
